@@ -249,3 +249,94 @@ Proof.
     eapply depth_transfer; [|exact Hd]. intros x n Hx. apply mask_parent_back in Hx as (n0 & Hn0 & E). eauto.
   - intros p c Kp Hl. split; [|eapply Hcl; eauto]. apply (par_mask D). apply C. apply lists_mask. split; auto.
 Qed.
+
+(* ------------------------------------------------------------------ install *)
+Lemma par_frame w w' c p : (exists n, w_nodes w c = Some n) -> w_nodes w' c = w_nodes w c -> (par w' c p <-> par w c p).
+Proof. intros _ E. unfold par. rewrite E. tauto. Qed.
+
+Lemma install_core : forall e parent w r w',
+  Core w -> (parent = PNone \/ exists q, parent = PElem q /\ allocated w q) ->
+  install parent e w = Val (r, w') ->
+  exists t, r = OK t /\ it_id t = w_next w /\ Core w' /\ w_next w < w_next w' /\ roots w' = roots w /\
+    (forall j, j < w_next w -> w_nodes w' j = w_nodes w j) /\
+    (exists n, w_nodes w' (w_next w) = Some n /\ n_parent n = parent) /\
+    (forall c p, w_next w < c -> par w' c p -> w_next w <= p).
+Proof.
+  fix IH 1. intros [name ty attrs content comment] parent w r w' C Hpar H.
+  cbn [install] in H.
+  apply wbind_inv in H as [(i & w1 & H1 & H2) | (e' & H1 & _)]; [|discriminate H1].
+  apply alloc_walloc in H1 as ([= ->] & ->).
+  set (n0 := mkNode parent name ty [] (map (fun a => (fst a, to_hc (snd a))) attrs) [] comment) in *.
+  set (i := w_next w) in *.
+  assert (C1 : Core (walloc w n0)).
+  { eapply core_alloc; [exact C|apply alloc1_walloc|apply skel_walloc_new|exact Hpar]. }
+  assert (Hi1 : w_nodes (walloc w n0) i = Some n0) by apply nodes_walloc_new.
+  assert (Hn1 : w_next (walloc w n0) = i + 1) by reflexivity.
+  assert (G : forall l wa r0 wb, Core wa -> w_nodes wa i = Some n0 -> i < w_next wa ->
+    (fix go (l : list (Parser.etree + Parser.cdata)) : W (list citem * list (option itree)) :=
+       match l with
+       | [] => wret ([], [])
+       | inl c :: r => (do t <- install (PElem i) c; do '(cs, ts) <- go r; wret (CElem (it_id t) :: cs, Some t :: ts))%W
+       | inr d :: r => (do '(cs, ts) <- go r; wret (CData (to_hc d) :: cs, None :: ts))%W
+       end) l wa = Val (r0, wb) ->
+    exists items kds, r0 = OK (items, kds) /\ Core wb /\ w_next wa <= w_next wb /\ roots wb = roots wa /\
+      (forall j, j < w_next wa -> w_nodes wb j = w_nodes wa j) /\
+      (forall c, In c (elems items) -> w_next wa <= c < w_next wb /\ par wb c i) /\ NoDup (elems items) /\
+      (forall c p, w_next wa <= c -> par wb c p -> p = i \/ w_next wa <= p)).
+  { induction l as [|[c|d] rest IHr]; intros wa r0 wb Ca Hia Hlt Hg.
+    - apply wret_inv in Hg as (-> & ->). exists [], [].
+      split; [reflexivity|]. split; [exact Ca|]. split; [lia|]. split; [reflexivity|]. split; [auto|].
+      split; [intros c []|]. split; [constructor|].
+      intros c p Hc (n & Hn & _). assert (allocated wa c) as Ha by (eexists; eauto). apply Ca in Ha. lia.
+    - apply wbind_inv in Hg as [(t & w3 & H5 & H6) | (e' & H5 & ->)].
+      2:{ destruct (IH c (PElem i) wa _ _ Ca (or_intror (ex_intro _ i (conj eq_refl (ex_intro _ n0 Hia)))) H5) as (t & [=] & _). }
+      destruct (IH c (PElem i) wa _ _ Ca (or_intror (ex_intro _ i (conj eq_refl (ex_intro _ n0 Hia)))) H5)
+        as (t' & [= <-] & Eid & C3 & L3 & R3 & F3 & (nr & Hnr & Pnr) & Cl3).
+      assert (Hi3 : w_nodes w3 i = Some n0) by (rewrite F3; auto).
+      apply wbind_inv in H6 as [([cs ts] & w4 & H7 & H8) | (e' & H7 & ->)].
+      2:{ destruct (IHr w3 _ _ C3 Hi3 ltac:(lia) H7) as (? & ? & [=] & _). }
+      apply wret_inv in H8 as (-> & ->).
+      destruct (IHr w3 _ _ C3 Hi3 ltac:(lia) H7) as (items & kds & [= -> ->] & C4 & L4 & R4 & F4 & K4 & ND4 & Cl4).
+      exists (CElem (it_id t) :: items), (Some t :: kds). rewrite elems_cons_elem.
+      split; [reflexivity|]. split; [exact C4|]. split; [lia|]. split; [congruence|].
+      split; [intros j Hj; rewrite F4 by lia; apply F3; auto|].
+      split; [|split].
+      + intros c0 [<-|Hc0].
+        * rewrite Eid. split; [lia|]. exists nr. split; auto. rewrite F4 by lia. auto.
+        * destruct (K4 _ Hc0) as (Hr4 & Hp4). split; [lia|auto].
+      + constructor; auto. intros Hin. apply K4 in Hin as (Hr4 & _). lia.
+      + intros c0 p Hc0 Hp. destruct (N.lt_ge_cases c0 (w_next w3)) as [Hlt3|Hge3].
+        * assert (Hp3 : par w3 c0 p). { destruct Hp as (n & Hn & Hpp). exists n. split; auto. rewrite <- F4; auto. }
+          destruct (N.eq_dec c0 (w_next wa)) as [->|Hne].
+          -- left. eapply par_fun; [exact Hp3|]. exists nr. auto.
+          -- right. apply (Cl3 c0 p); auto. lia.
+        * destruct (Cl4 _ _ Hge3 Hp); auto. right. lia.
+    - apply wbind_inv in Hg as [([cs ts] & w4 & H7 & H8) | (e' & H7 & ->)].
+      2:{ destruct (IHr wa _ _ Ca Hia Hlt H7) as (? & ? & [=] & _). }
+      apply wret_inv in H8 as (-> & ->).
+      destruct (IHr wa _ _ Ca Hia Hlt H7) as (items & kds & [= -> ->] & C4 & L4 & R4 & F4 & K4 & ND4 & Cl4).
+      exists (CData (to_hc d) :: items), (None :: kds). rewrite elems_cons_data.
+      split; [reflexivity|]. split; [exact C4|]. split; [exact L4|]. split; [exact R4|]. split; [exact F4|]. auto. }
+  apply wbind_inv in H2 as [([items kds] & w2 & H3 & H4) | (e' & H3 & _)].
+  2:{ destruct (G _ _ _ _ C1 Hi1 ltac:(lia) H3) as (? & ? & [=] & _). }
+  destruct (G _ _ _ _ C1 Hi1 ltac:(lia) H3) as (items' & kds' & [= <- <-] & C2 & L2 & R2 & F2 & K2 & ND2 & Cl2).
+  clear G.
+  apply wbind_inv in H4 as [(u & w3 & H5 & H6) | (e' & H5 & _)].
+  2:{ apply modify_node_wset in H5 as (? & _ & [=] & _). }
+  apply wret_inv in H6 as (-> & ->).
+  apply modify_node_wset in H5 as (n & Hn & _ & ->).
+  assert (n = n0) as -> by (rewrite F2 in Hn by lia; congruence).
+  exists (INode i kds). split; [reflexivity|]. split; [reflexivity|].
+  assert (Hs2 : skel w2 i = Some (parent, [])) by (rewrite (skel_some _ _ _ Hn); reflexivity).
+  split.
+  { eapply (core_upd_kids w2 _ i parent [] (elems items)); [exact C2|apply upd1_wset|exact Hs2|apply skel_wset_eq|exact ND2|].
+    intros c Hc. right. apply K2. auto. }
+  rewrite next_wset, roots_wset. split; [lia|]. split; [rewrite R2; reflexivity|].
+  split.
+  { intros j Hj. rewrite nodes_wset_neq by lia. rewrite F2 by lia. apply nodes_walloc_old. lia. }
+  split.
+  { exists (set_content n0 items). split; [apply nodes_wset_eq|reflexivity]. }
+  intros c p Hc Hp. assert (Hp2 : par w2 c p).
+  { destruct Hp as (nc & Hnc & Hpc). rewrite nodes_wset_neq in Hnc by lia. exists nc. auto. }
+  destruct (Cl2 c p ltac:(lia) Hp2); lia.
+Qed.
